@@ -131,7 +131,30 @@ def opPathWithBase : Handler := fun j => do
   let base ← match fieldOpt j "base" with | some b => (some <$> getStr b) | none => pure none
   return Json.mkObj [("ok", Json.str (Dict.pathWithBase p base)), ("parent", Json.str (Dict.basePath (Dict.pathWithBase p base)))]
 
+def arrJson (x : UArr) : Json := Json.mkObj [("vs", ratListJson x.vs), ("sys", sysTriple x.u.sys), ("dim", dimJson x.u.dim)]
+
+/-- `load_rdtrajectory` on the virtual file system; also what `save_rdtrajectory` would write for the result -/
+def opTrajLoad : Handler := fun j => do
+  let dir ← getStr (← field j "dir")
+  let file ← getStr (← field j "file")
+  let files : List (String × Dict.Json) ← do
+    let o ← match (← field j "files").getObj? with | .ok o => pure o | .error e => throw e
+    o.toList.mapM fun (k, v) => do return (k, ← toModelJsonOrdered v)
+  let dataRef : Option String ← match fieldOpt j "data_ref" with | some r => (some <$> getStr r) | none => pure none
+  let fs : Dict.FS := fun p => files.lookup p
+  match Dict.loadTrajectory fs dir file with
+  | .error e => return Json.mkObj [("error", errName e)]
+  | .ok tr =>
+    let optS : Option String → Json := fun o => match o with | some s => .str s | none => .null
+    return Json.mkObj [("ok", Json.mkObj [
+      ("obj", Json.mkObj [("data", arrJson tr.data), ("t", arrJson tr.t), ("system", obj2 tr.system),
+        ("script", match tr.script with | some s => obj3 s | none => .null),
+        ("engine_description", optS tr.engineDescription), ("engine_option", optS tr.engineOption),
+        ("cgmap", match tr.cgmap with | some l => intListJson l | none => .null)]),
+      ("dict", ofModelJson (Dict.trajToDict tr dataRef))])]
+
 def dictOps : List (String × Handler) :=
-  [("from_dict", opFromDict), ("process_keys", opProcessKeys), ("path_with_base", opPathWithBase)]
+  [("from_dict", opFromDict), ("process_keys", opProcessKeys), ("path_with_base", opPathWithBase),
+   ("traj_load", opTrajLoad)]
 
 end Strengths.Driver
